@@ -354,6 +354,7 @@ class Path:
         p.calls_mark = self.calls_mark
         p.header_env = getattr(self, "header_env", {})
         p.header_k = getattr(self, "header_k", None)
+        p.header_heap = getattr(self, "header_heap", {})
         return p
 
 
@@ -686,6 +687,19 @@ class Engine:
             L.phase = phase
             L.calls = p.calls[p.calls_mark:] if phase == "preserve" else ()
             L.k_header = getattr(p, "header_k", None)
+            hdr = NS()
+            hh_ = getattr(p, "header_heap", {})
+            for nme, v in self.argvals.items():
+                if isinstance(v, ArrV) and v.aid in hh_:
+                    setattr(hdr, nme, ArrAcc(hh_, v, sem))
+            L.header = hdr  # the (havoc'ed) state at the loop head of the iteration just executed
+
+            def llocal(name, p=p):
+                vn = p.last.get(name)
+                v = p.env.get(vn) if vn is not None else None
+                return v.t if isinstance(v, Sc) else None
+
+            L.local = llocal  # latest version of a source variable assigned on this path
 
             def at_header(name, p=p, li=li):
                 he = getattr(p, "header_env", {})
@@ -727,10 +741,23 @@ class Engine:
     def _check_inv(self, li, p, phase, entry_heap):
         if phase == "init":
             entry_heap = p.heap
+        base_pc = p.pc
+        extra = []
         for name, f, is_assume in self._inv_clauses(li, p, entry_heap, phase):
             if is_assume:
+                extra.append(f)  # definitional instance stated at this point of the proof script
+                self.assumed.append("%s:inv%d:%s" % (self.fname, li.ordinal, name))
                 continue
+            if name.startswith("lemma-ground:"):
+                # intermediate assertion proved from the quantifier-free hypotheses only (fewer
+                # hypotheses = still sound); afterwards a hypothesis for the remaining clauses
+                p.pc = [h for h in base_pc + extra if not _has_quantifier(h)]
+            else:
+                p.pc = base_pc + extra
             self._emit("inv%d-%s" % (li.ordinal, phase), name, p, f, li.header)
+            if name.startswith("lemma"):
+                extra.append(f)
+        p.pc = base_pc
 
     def _havoc_loop(self, li, p):
         sem = self.sem
@@ -764,6 +791,7 @@ class Engine:
         p.calls_mark = len(p.calls)
         p.header_env = {v: p.env[v] for v in li.carried if v in p.env}
         p.header_k = p.iters[it.iid]
+        p.header_heap = dict(p.heap)
         for name, f, is_assume in self._inv_clauses(li, p, entry_heap):
             p.pc.append(f)
             if is_assume:
@@ -1096,7 +1124,7 @@ class Engine:
         for n, a, t in zip(names, args, sig.args):
             t = unlit(t)
             if isinstance(a, Sc):
-                a = sem.cast(a, t, obl)
+                a = self._cast_pc(p, a, t, obl)
             argvals[n] = a
         pre_heap = dict(p.heap)
         F = Frame(sem, argvals, pre_heap)
@@ -1185,6 +1213,19 @@ class Engine:
             s_.add(h)
         s_.add(z3.Not(f))
         return s_.check() == z3.unsat
+
+    def _cast_pc(self, p, v, toty, obl):
+        """cast with path-condition-guided simplification: a narrowing integer cast whose operand is
+        provably inside the target range is the identity (no `mod` term); otherwise the general form"""
+        sem = self.sem
+        fromty, to = unlit(v.ty), unlit(toty)
+        if sem.mode == INT and is_int(fromty) and is_int(to) and fromty != to and not self.interp:
+            flo, fhi = S.int_range(fromty)
+            tlo, thi = S.int_range(to)
+            if not (tlo <= flo and fhi <= thi) and fromty.bitwidth != to.bitwidth:
+                if self._quick(p, z3.And(v.t >= tlo, v.t <= thi), rlimit=4_000_000):
+                    return Sc(v.t, to)
+        return sem.cast(v, to, obl)
 
     def _fix_slice(self, sl, size, p=None):
         """python slice normalisation (step 1) -> (start, length) in index sort"""
@@ -1345,7 +1386,7 @@ class Engine:
                     obl.append(("bounds", inb))
                     terms.append(it)
                 self._par_check(arr, terms, p, "write")
-                v = sem.cast(sem.cast(val, sig.args[2], obl), arr.dtype, obl)
+                v = self._cast_pc(p, self._cast_pc(p, val, sig.args[2], obl), arr.dtype, obl)
                 vt = z3.simplify(v.t) if self.unroll else v.t
                 bidx = arr.imap(tuple(terms))
                 if self.unroll:
@@ -1457,6 +1498,18 @@ class Engine:
             val = self._concretize(val)
         p.iters[it.iid] = nk
         return PairV(val, Sc(valid, nt.boolean))
+
+
+def _has_quantifier(f):
+    todo = [f]
+    seen = 0
+    while todo and seen < 20000:
+        t = todo.pop()
+        seen += 1
+        if z3.is_quantifier(t):
+            return True
+        todo.extend(t.children())
+    return False
 
 
 class LoopInfo:
